@@ -93,6 +93,8 @@ def solve(A: LinearOperator, B: torch.Tensor, E: Union[torch.Tensor, None] = Non
         if M is not None:
             M.check()
 
+    if isinstance(method, str):
+        method = method.lower()  # method names are case-insensitive
     if method is None:
         if isinstance(A, MatrixLinearOperator) and \
            (M is None or isinstance(M, MatrixLinearOperator)):
